@@ -15,6 +15,7 @@ pub mod gens;
 pub mod modular;
 pub mod monty;
 pub mod out;
+pub mod recip;
 pub mod shifts;
 pub mod small;
 
@@ -83,6 +84,8 @@ fn subchecks(_ctx: &Ctx) -> Vec<SubCheck> {
     per_width!(v, 4000, 600, 20; (8, 16, 10, 2));
     per_width!(v, 6000, 1500, 30; (4, 8, 6, 4), (3, 6, 5, 3), (2, 4, 4, 2), (1, 2, 3, 1));
     v.push(SubCheck::new("limb", 20000, small::limb).tape(16));
+    // routes with / without the 64-bit reciprocal on every slim-margin divisor prefix (recip.rs)
+    v.push(SubCheck::new("mul_mod-routes/reciprocal-margins", 8000, recip::mul_mod_routes).tape(12).thorough(2));
     v.push(SubCheck::new("int-arith/I64", 4000, small::int_arith::<1>).tape(60));
     v.push(SubCheck::new("int-arith/I128", 4000, small::int_arith::<2>).tape(70));
     v.push(SubCheck::new("int-arith/I256", 4000, small::int_arith::<4>).tape(80));
